@@ -380,6 +380,34 @@ func buildConfigs(o *h.Opts, rnd *h.Rand) []config {
 		calls := []string{"Basic256:2", srvx.PolicyPrefix + "Basic256:2", "Bogus:3", srvx.PolicyPrefix + "None:1", "None:1", "basic256:2"}
 		cfgs = append(cfgs, config{Name: "spellings", Intent: ps, Calls: calls})
 	}
+	// the same sets enabled in other ORDERS and spellings: the configured set must not depend on them
+	{
+		rev := make([]pair, len(all))
+		for i, p := range all {
+			rev[len(all)-1-i] = p
+		}
+		cfgs = append(cfgs, config{Name: "all-reversed", Intent: rev, Calls: callsOf(rev)})
+		// reversed, URI and short spellings alternating, every call issued twice in the other spelling
+		var calls []string
+		for i, p := range rev {
+			a, b := p.String(), srvx.PolicyPrefix+p.String()
+			if i%2 == 1 {
+				a, b = b, a
+			}
+			calls = append(calls, a, b)
+		}
+		cfgs = append(cfgs, config{Name: "all-reversed-mixed-spellings", Intent: rev, Calls: calls})
+		// prefix-related policy names next to each other, longer name first
+		ps := []pair{{"Basic256Sha256", 2}, {"Basic256", 2}, {"Basic256Sha256", 3}, {"Basic256", 3}, {"Aes256_Sha256_RsaPss", 3}, {"Aes128_Sha256_RsaOaep", 3}}
+		cfgs = append(cfgs, config{Name: "all-prefix-names-longer-first", Intent: ps, Calls: callsOf(ps)})
+		// a seeded permutation of everything
+		perm := append([]pair(nil), all...)
+		for j := len(perm) - 1; j > 0; j-- {
+			k := rnd.Intn(j + 1)
+			perm[j], perm[k] = perm[k], perm[j]
+		}
+		cfgs = append(cfgs, config{Name: "all-permuted", Intent: perm, Calls: callsOf(perm)})
+	}
 	// pairs EnableSecurity accepts although no client can use them: None with a signing mode
 	{
 		ps := []pair{{"None", 1}, {"None", 2}, {"Basic256", 3}}
